@@ -54,6 +54,9 @@ namespace Tbox.C03
 theorem init_inv : Inv init := by
   refine ⟨?_, ?_, ?_, ?_, ?_⟩ <;> simp [init, Holds]
 
+theorem initL_inv (L : Nat) : Inv (initL L) := by
+  refine ⟨?_, ?_, ?_, ?_, ?_⟩ <;> simp [initL, Holds]
+
 /-- counting a condition over a list after removing one of its elements -/
 theorem countP_erase_add {p : Nat → Bool} {l : List Nat} {e : Nat} (h : e ∈ l) :
     (l.erase e).countP p + (if p e then 1 else 0) = l.countP p := by
@@ -610,6 +613,9 @@ theorem initEv_inv (s : State) (e f m : Nat) (o : Bool) (h : Inv s) : Inv (initE
     · simpa [ha, he] using h
     · have he' : (s.evs e).enabled = false := by simpa using he
       simp only [ha, he', Bool.not_true, Bool.false_eq_true, ↓reduceIte]
+      by_cases hl : (s.lim != 0 && decide (s.lim ≤ f)) = true
+      · simp only [hl, ↓reduceIte]; exact h
+      simp only [hl, Bool.false_eq_true, ↓reduceIte]
       -- the state after the reference moved
       have key : ∀ s1 : State, Inv s1 → (s1.evs e).enabled = false → (s1.evs e).alive = true → s1.nEv = s.nEv →
           Inv (s1.setEv e { s1.evs e with mask := m, oneshot := (s1.evs e).oneshot || o }) := by
@@ -705,6 +711,8 @@ theorem act_inv (s : State) (a : Act) (h : Inv s) : Inv (act s a).1 := by
   | setR f b => exact setReady_inv s f _ _ _ h
   | setW f b => exact setReady_inv s f _ _ _ h
   | oob f => exact setReady_inv s f _ _ _ h
+  | arm k => exact h
+  | post k => exact h
 
 theorem runScript_inv (sc : List Act) : ∀ (s : State), Inv s → Inv (runScript s sc) := by
   induction sc with
@@ -830,6 +838,7 @@ theorem initEv_prov (s : State) (e f m : Nat) (o : Bool) : Prov s (initEv s e f 
   dsimp only
   split; · exact Prov.refl s
   split; · exact Prov.refl s
+  split; · exact Prov.refl s
   refine Prov.trans ?_ (setEv_prov _ _ _)
   split
   · exact Prov.refl s
@@ -871,6 +880,8 @@ theorem act_prov (s : State) (a : Act) : Prov s (act s a).1 := by
   | setR f b => exact setReady_prov s f _ _ _
   | setW f b => exact setReady_prov s f _ _ _
   | oob f => exact setReady_prov s f _ _ _
+  | arm k => exact Prov.refl s
+  | post k => exact Prov.refl s
 
 theorem runScript_prov (sc : List Act) : ∀ s : State, Prov s (runScript s sc) := by
   induction sc with
@@ -1009,12 +1020,41 @@ theorem removeInvalid_inv (fds : List Nat) : ∀ s : State, Inv s → Inv (remov
     · exact h
     · exact disableAll_inv _ s h
 
+theorem runScripts_inv (scs : List (List Act)) : ∀ s : State, Inv s → Inv (runScripts s scs) := by
+  unfold runScripts
+  induction scs with
+  | nil => intro s h; exact h
+  | cons sc rest ih => intro s h; exact ih _ (runScript_inv sc s h)
+
+theorem runScripts_prov (scs : List (List Act)) : ∀ s : State, Prov s (runScripts s scs) := by
+  unfold runScripts
+  induction scs with
+  | nil => intro s; exact Prov.refl s
+  | cons sc rest ih => intro s; exact (runScript_prov sc s).trans (ih _)
+
+/-- a whole turn keeps the invariant: the timer callbacks run between the wait and the dispatch, the
+snapshot `w` is the one taken at the wait -/
+theorem loopPass_inv (s : State) (tms : List (List Act)) (ready : List (Nat × Nat)) (nx : List (List Act))
+    (h : Inv s) : Inv (loopPass s tms ready nx) := by
+  unfold loopPass
+  exact runScripts_inv nx _
+    (foldl_dispatch_ok (waitOf s ready) ready _ (fun _ hx => hx) (runScripts_inv tms s h)
+      ((passInv_start s ready).step (runScripts_prov tms s))).1
+
+theorem loopBadf_inv (s : State) (tms : List (List Act)) (fds : List Nat) (nx : List (List Act))
+    (h : Inv s) : Inv (loopBadf s tms fds nx) := by
+  unfold loopBadf
+  exact runScripts_inv nx _ (removeInvalid_inv fds _ (runScripts_inv tms s h))
+
 theorem step_inv (s : State) (st : Step) (h : Inv s) : Inv (step s st) := by
   cases st with
   | newEv sc => exact newEv_inv s sc h
   | api a => exact act_inv s a h
   | pass be r => exact pass_inv s r h
   | badfPass fds => exact removeInvalid_inv fds s h
+  | loop be tms r nx => exact loopPass_inv s tms r nx h
+  | loopBadf trig tms fds nx => exact loopBadf_inv s tms fds nx h
+  | defer nx => exact runScripts_inv nx s h
 
 /-- every state reachable from `init` satisfies the invariant -/
 theorem exec_inv (sts : List Step) : ∀ (s : State), Inv s → ∀ s', exec s sts = some s' → Inv s' := by
